@@ -24,14 +24,15 @@ func TestSweep(t *testing.T) {
 	defer func() { rec.Flush(!t.Failed()) }()
 	rep := env.Pick(2, 10)
 	for ti, tn := range Types {
-		for _, rw := range [][2]int{{2, 2}, {8, 8}, {16, 0}, {0, 16}, {3, 5}} {
+		for rwi, rw := range [][2]int{{2, 2}, {8, 8}, {16, 0}, {0, 16}, {3, 5}} {
 			for _, procs := range []int{1, 2, 16} {
 				R, W := rw[0], rw[1]
 				F, span := 40, 32
 				if procs == 16 { // a long buffer: writer windows of hundreds of samples with sizes that are not multiples of 8
 					F, span = 8+101*kitMax(W, 1), 101*kitMax(W, 1)
 				}
-				c := &Case{T: tn, C: 1 + ti%3, F: F, RO: 8, Procs: procs, Repeat: rep, Partial: (ti % 3) * (procs % 2)}
+				C := []int{1, 2, 3, 9, 2, 16, 3}[(ti+rwi)%7] // also more channels than 8
+				c := &Case{T: tn, C: C, F: F, RO: 8, Procs: procs, Repeat: rep, Partial: ((ti % 3) * (procs % 2)) % C}
 				c.Bounds = []int{8}
 				for w := 0; w < W; w++ {
 					c.Bounds = append(c.Bounds, 8+(w+1)*span/W)
